@@ -178,12 +178,12 @@ type Sys struct {
 }
 
 var (
-	lineRe     = regexp.MustCompile(`^(\d+)\s+(\d+\.\d+)\s+(.*)$`)
-	resumedRe  = regexp.MustCompile(`^<\.\.\. (\w+) resumed>(.*)$`)
-	fdPathRe   = regexp.MustCompile(`^\d+<([^>]*)>`)
-	retRe      = regexp.MustCompile(`\)\s+=\s+(-?\d+)`)
-	hexStrRe   = regexp.MustCompile(`"((?:\\x[0-9a-f]{2})*)"`)
-	quotedRe   = regexp.MustCompile(`"((?:\\x[0-9a-f]{2})*)"`)
+	lineRe    = regexp.MustCompile(`^(\d+)\s+(\d+\.\d+)\s+(.*)$`)
+	resumedRe = regexp.MustCompile(`^<\.\.\. (\w+) resumed>(.*)$`)
+	fdPathRe  = regexp.MustCompile(`^\d+<([^>]*)>`)
+	retRe     = regexp.MustCompile(`\)\s+=\s+(-?\d+)`)
+	hexStrRe  = regexp.MustCompile(`"((?:\\x[0-9a-f]{2})*)"`)
+	quotedRe  = regexp.MustCompile(`"((?:\\x[0-9a-f]{2})*)"`)
 )
 
 // decodePath undoes strace -xx escaping of a path.
@@ -390,4 +390,23 @@ func CheckOrdering(calls []Sys, dir string) (map[string]string, map[string]int64
 		}
 	}
 	return viol, cnt
+}
+
+// NextEpochID reads the daemon's current persistent state file (replaced
+// atomically by rename) and returns oldest_epoch_id + number of epoch hash
+// seeds, i.e. the first epoch that is NOT yet committed.
+func NextEpochID(dir string) (uint64, bool) {
+	b, err := os.ReadFile(filepath.Join(dir, "state", "state"))
+	if err != nil {
+		return 0, false
+	}
+	var st pb.PersistentState
+	if err := proto.Unmarshal(b, &st); err != nil {
+		return 0, false
+	}
+	n := uint64(st.OldestEpochId)
+	for _, bl := range st.Blocks {
+		n += uint64(len(bl.EpochHashSeeds))
+	}
+	return n, true
 }
